@@ -301,6 +301,7 @@ class World(object):
         self.silent = set()           # action_ex ids whose body never returns
         self._active_node = None
         self.net = None
+        self.recorder = None
         self.overrides = []
         self.sim.jitter_rng = _random.Random('jit-%s' % seed)
         self.id_labels = {}
@@ -581,8 +582,14 @@ class World(object):
             n, outcome = self.action_memo[action_ex_id]
             rerun = True
         else:
-            n = self.attempts.get(key, 0)
-            self.attempts[key] = n + 1
+            ak = self.recorder.action_key.get(action_ex_id) \
+                if self.recorder is not None else None
+            if ak is not None and ak[0] is not None:
+                # n-th execution of this item within its task execution
+                n = ak[2]
+            else:
+                n = self.attempts.get(key, 0)
+                self.attempts[key] = n + 1
             seq = self.outcomes.get(key)
             if seq is not None and n < len(seq):
                 outcome = seq[n]
